@@ -42,7 +42,10 @@ RULE = ("layouts built from block-occupancy vectors over nr x nc grids of unit b
         "run into the thousands, where numpy's isin takes its sort-based path; the labels go to Coq as their ranks among the "
         "occupied ids); an uneven-blocks stream for both cross-validators (one row of up to 9 blocks whose largest population "
         "lies strictly between one and two ideal folds, total/n_splits < max < 2*total/n_splits, the large block first, in the "
-        "middle, last, or two large ones; n_splits 2..5; shuffle on/off; BlockShuffleSplit with balancing 2..10). Reproducibility: for every case the folds "
+        "middle, last, or two large ones; n_splits 2..5; shuffle on/off; BlockShuffleSplit with balancing 2..10); a deterministic kfold-exact-marks stream (n_splits 11..20, totals up to 400 "
+        "for which some k*total/n_splits is an exact integer that np.linspace(0, total, n_splits+1)[k] misses by an ulp - 13 "
+        "triples, computed with numpy at run time - and one row of blocks whose cumulative population hits that integer exactly "
+        "at the end of a larger block, a block of 2 or 3 right after, unit blocks elsewhere; balance=True, shuffle=False). Reproducibility: for every case the folds "
         "compared with the model are the first split() of a fresh instance on a C-ordered X, and the following must give "
         "exactly the same folds: split() a 2nd (thorough: and 3rd) time on the SAME instance, a second fresh instance, "
         "sklearn.base.clone of the used instance (split twice; safe=False, i.e. a deep copy, while the splitters have no "
@@ -834,6 +837,56 @@ def _uneven_blocks(tier, rnd, n=None):
     return specs
 
 
+def _exact_mark_triples():
+    """(parts, total, k, k*total/parts) with k*total/parts an exact integer that np.linspace(0, total, parts+1)[k]
+    misses by an ulp (computed here, with numpy): inputs on which a floating-point form of the ideal cumulative
+    sums differs from the exact integer form (k*total)//parts"""
+    out = []
+    for parts in range(11, 21):
+        for total in range(parts, 401):
+            ls = np.linspace(0, total, parts + 1)
+            for k in range(1, parts):
+                if (k * total) % parts == 0 and ls[k] != (k * total) // parts:
+                    out.append((parts, total, k, (k * total) // parts, bool(ls[k] < (k * total) // parts)))
+    return out
+
+
+def _pbs_exact(pops, parts):
+    """the split points of the exact integer rule, or None (python ints; used only to pick layouts)"""
+    cs, t = [], 0
+    for v in pops:
+        t += v
+        cs.append(t)
+    idx = [sum(1 for c in cs if c <= (j * t) // parts) for j in range(1, parts)]
+    if len(set(idx)) != len(idx) or 0 in idx or len(pops) in idx:
+        return None
+    return idx
+
+
+def _exact_marks(tier, rnd, full=None):
+    """one row of blocks whose cumulative population hits the exact integer mark k*total/parts at a block end:
+    unit blocks, then one (or three) larger block(s) ending exactly at the mark, a block of 2 or 3 right after, unit
+    blocks for the rest; balance=True, shuffle=False"""
+    specs = []
+    full = (tier == "thorough") if full is None else full
+    for parts, total, k, v, below in _exact_mark_triples():
+        if not full and (total > 250 or not below):
+            continue
+        ideal = -(-total // parts)
+        rich = full and below       # the marks linspace overshoots are harmless with side="right": one layout each
+        for b in ((ideal, ideal + 1) if rich else (ideal,)):
+            for c in ((2, 3) if rich else (2,)):
+                for nbig in ((1, 3) if (rich or not full) else (1,)):
+                    if v - nbig * b < 1 or total - v - c < 1:
+                        continue
+                    pops = [1] * (v - nbig * b) + [b] * nbig + [c] + [1] * (total - v - c)
+                    if len(pops) < parts or _pbs_exact(pops, parts) is None:
+                        continue
+                    specs.append({"cv": "kfold", "kind": "kfold-exact-marks", "grid": (1, len(pops)), "occ": tuple(pops),
+                                  "n_splits": parts, "seed": None, "balance": True})
+    return specs
+
+
 def _specs0(tier, rnd):
     specs = []
     specs += _pbs(tier, rnd)
@@ -845,6 +898,7 @@ def _specs0(tier, rnd):
     specs += _bss_malformed(tier, rnd)
     specs += _sparse_grid(tier, rnd)
     specs += _uneven_blocks(tier, rnd)
+    specs += _exact_marks(tier, rnd)
     return specs
 
 
@@ -883,7 +937,7 @@ def generate(tier, seed):
 
 def search(dis, tier, seed):
     rnd = random.Random(seed + 1)
-    specs = _uneven_blocks("quick", rnd, n=600) + _sparse_grid("thorough", rnd, n=48) + _kfold_random("quick", rnd) + _bss_random("quick", rnd) \
+    specs = _exact_marks("thorough", rnd) + _uneven_blocks("quick", rnd, n=600) + _sparse_grid("thorough", rnd, n=48) + _kfold_random("quick", rnd) + _bss_random("quick", rnd) \
         + _kfold_exhaustive("quick", rnd) + _bss_exhaustive("quick", rnd) + _pbs("quick", rnd)
     for k, sp in enumerate(specs):
         if sp["cv"] != "pbs":
